@@ -18,6 +18,7 @@ type Rule struct {
 	UEIP   bool `json:"ueip,omitempty"`
 	Uplink bool `json:"uplink,omitempty"`
 	NoURR  bool `json:"no_urr_ie,omitempty"` // update PDR without any URR ID IE
+	IDLast bool `json:"id_last,omitempty"`   // Create/Update PDR: the PDR ID IE comes after all other children
 	// FAR
 	Action uint16 `json:"action,omitempty"`
 	Peer   int    `json:"peer,omitempty"` // gNB index for outer header creation (0 = none)
@@ -97,6 +98,9 @@ func (r Rule) CreateIE() *IE {
 		for _, u := range r.URRs {
 			c = append(c, URRID(u))
 		}
+		if r.IDLast {
+			c = append(c[1:], c[0])
+		}
 		return Grp(TCreatePDR, c...)
 	case "FAR":
 		c := []*IE{FARID(uint32(r.ID)), ApplyAction(r.Action, r.Action > 0xff)}
@@ -142,6 +146,9 @@ func (r Rule) UpdateIE() *IE {
 			for _, u := range r.URRs {
 				c = append(c, URRID(u))
 			}
+		}
+		if r.IDLast {
+			c = append(c[1:], c[0])
 		}
 		return Grp(TUpdatePDR, c...)
 	case "FAR":
@@ -344,7 +351,11 @@ func (g *gen) creates(s *genSess, max int) []Rule {
 		if dup {
 			continue
 		}
-		out = append(out, g.rule(kind, id))
+		nr := g.rule(kind, id)
+		// child-IE order is free in a grouped IE: a third of the PDRs carry their PDR ID behind the URR IDs
+		// (derived from values already drawn, so that the histories of a seed are otherwise unchanged)
+		nr.IDLast = kind == "PDR" && (int(id)+len(nr.URRs)+i+n)%3 == 0
+		out = append(out, nr)
 		s.rules[kind][id] = true
 	}
 	return out
@@ -575,6 +586,7 @@ func Generate(r *Rng, p GenProfile) *History {
 				if kind == "PDR" && r.Bool() {
 					u.FAR = 0
 				}
+				u.IDLast = kind == "PDR" && (int(u.ID)+len(u.URRs)+i+nupd+nrem)%3 == 0
 				dupU := false
 				for _, x := range o.Update {
 					if x.Kind == u.Kind && x.ID == u.ID {
